@@ -11,7 +11,9 @@
 #include <etl/utility.hpp>
 
 #include <array>
+#include <compare>
 #include <functional>
+#include <memory>
 #include <string>
 #include <tuple>
 #include <type_traits>
@@ -326,7 +328,7 @@ inline void note_call(int fn_id, int state, int self, void const* self_addr, X&&
         r.aid[i]  = -1;
         if (L.track_ids) {
             for (int k = 0; k < 3; ++k) {
-                if (L.caller_obj[k] == static_cast<void const*>(&a)) { r.aid[i] = k; }
+                if (L.caller_obj[k] == static_cast<void const*>(std::addressof(a))) { r.aid[i] = k; }
             }
         }
         ++i;
@@ -378,6 +380,59 @@ inline std::string log_diff(std::vector<CallRec> const& obs, std::vector<CallRec
     return "";
 }
 
+// CI: a class element comparable with int (== and <=> against int and against itself)
+struct CI {
+    int v;
+    CI(int x = 0) : v(x) { }
+    friend bool operator==(CI const& a, int b) { return a.v == b; }
+    friend auto operator<=>(CI const& a, int b) { return a.v <=> b; }
+    friend bool operator==(CI const& a, CI const& b) { return a.v == b.v; }
+    friend auto operator<=>(CI const& a, CI const& b) { return a.v <=> b.v; }
+};
+
+// Amp: a target / element class with a hostile unary operator& (returns the address of a decoy object).  Every wrapper of
+// the property that stores or forms an address must keep referring to the object it was given (std::addressof identity).
+struct Amp {
+    int id;
+    int data;
+    mutable int calls = 0;
+    explicit Amp(int i) : id(i), data(i * 10) { }
+    static Amp& decoy()
+    {
+        static Amp d(999);
+        return d;
+    }
+    Amp* operator&() { return std::addressof(decoy()); }
+    Amp const* operator&() const { return std::addressof(decoy()); }
+    int operator()(int x)
+    {
+        note_call(id, calls++, 0, this, x);
+        return id * 1000 + x;
+    }
+    int operator()(int x) const
+    {
+        note_call(id, calls++, 1, this, x);
+        return id * 1000 + x + 500;
+    }
+    int mf(int x)
+    {
+        note_call(id, calls++, 0, this, x);
+        return id * 100 + x;
+    }
+    int cmf(int x) const
+    {
+        note_call(id, calls++, 1, this, x);
+        return id * 100 + x + 50;
+    }
+    friend bool operator==(Amp const& a, Amp const& b) { return a.id == b.id; }
+};
+inline int val(Amp const& a) { return a.id; }
+template <typename X, typename Y>
+inline bool same_object(X const& a, Y const& b)
+{
+    return static_cast<void const*>(std::addressof(a)) == static_cast<void const*>(std::addressof(b));
+}
+
 // result of a call expression: static type + value (+ identity for references)
 struct Res {
     std::string type;
@@ -402,7 +457,7 @@ Res res(Thunk&& th)
     } else if constexpr (std::is_reference_v<T>) {
         T x     = th();
         r.value = res_val(x);
-        r.addr  = static_cast<void const*>(&x);
+        r.addr  = static_cast<void const*>(std::addressof(x));
     } else {
         T x     = th();
         r.value = res_val(x);
